@@ -311,3 +311,89 @@ package tags
 //@ ensures match: result0 ==> result1 == nil && evals > 0 && values.Equal(caseValue, vals[evals-1])
 //@ ensures nomatch: !result0 && result1 == nil ==> evals == len(c.Exprs) && forall(k, 0, evals, !values.Equal(caseValue, vals[k]))
 //@ ensures error: laste != nil ==> result1 == laste && !result0
+
+// ---- cycle: round-robin per loop and group; state lives in the loop's own map ---------
+
+//@ func tags.cycleTag$1
+//@ expect func(w io.Writer, ctx render.Context) error
+//@ implements func(io.Writer, render.Context) error
+//@ props C11 C01 C03 C04 C20
+//@ panics nothing
+//@ assigns M$has$Str$Int, M$val$Str$Int, writer, alloc S$Int
+//@ requires parsed: len(cycle.Values) > 0
+//@ ghost emitted Int = 0
+//@ ghost werr Val = nil
+//@ at call WriteString #1 assert roundRobin: exists(k, 0, len(cycle.Values), arg1 == cycle.Values[k])
+//@ at call WriteString #1: emitted = emitted + 1
+//@ at call WriteString #1: werr = result1
+//@ ensures once: emitted <= 1
+//@ ensures writeError: werr != nil ==> result != nil
+//@ ensures okWhenWritten: emitted == 1 && werr == nil ==> result == nil
+
+// ---- assign / capture (C12): bind exactly the value / the captured text; no output -----
+
+//@ func tags.assignTag$1
+//@ expect func(w io.Writer, ctx render.Context) error
+//@ implements func(io.Writer, render.Context) error
+//@ props C12 C01 C03
+//@ panics nothing
+//@ assigns M$has$Str$Val, M$val$Str$Val
+//@ requires parsed: stmt != nil
+//@ ghost v Val = nil
+//@ ghost e Val = nil
+//@ at call Evaluate #1 assert expr: arg0 == stmt.Assignment.ValueFn
+//@ at call Evaluate #1: v = result0
+//@ at call Evaluate #1: e = result1
+//@ ensures bound: e == nil ==> result == nil && mapget(ctx.Bindings(), stmt.Assignment.Variable) == v && has(ctx.Bindings(), stmt.Assignment.Variable)
+//@ ensures others: e == nil ==> forall(k, "Str", k != stmt.Assignment.Variable ==> mapget(ctx.Bindings(), k) == old(mapget(ctx.Bindings(), k)))
+//@ ensures error: e != nil ==> result == e && forall(k, "Str", mapget(ctx.Bindings(), k) == old(mapget(ctx.Bindings(), k)))
+//@ ensures silent: wunchanged()
+
+//@ func tags.captureTagCompiler$1
+//@ expect func(w io.Writer, ctx render.Context) error
+//@ implements func(io.Writer, render.Context) error
+//@ props C12 C01
+//@ panics nothing
+//@ ghost s Str = ""
+//@ ghost e Val = nil
+//@ at call InnerString #1: s = result0
+//@ at call InnerString #1: e = result1
+//@ ensures bound: e == nil ==> result == nil && has(ctx.Bindings(), varname) && ctx.Bindings()[varname] == box(s)
+//@ ensures error: e != nil ==> result == e
+//@ ensures notOutput: wtotal(w) == old(wtotal(w))
+
+// ---- include (C14) ---------------------------------------------------------------------
+
+//@ func tags.includeTag$1
+//@ expect func(w io.Writer, ctx render.Context) error
+//@ implements func(io.Writer, render.Context) error
+//@ props C14 C01 C20
+//@ panics nothing
+//@ ghost argsrc Str = ""
+//@ ghost v Val = nil
+//@ ghost e Val = nil
+//@ ghost dir Str = ""
+//@ ghost path Str = ""
+//@ ghost out Str = ""
+//@ ghost re Val = nil
+//@ ghost wrote Int = 0
+//@ ghost werr Val = nil
+//@ at call TagArgs #1: argsrc = result
+//@ at call EvaluateString #1 assert argument: arg0 == ctx.TagArgs()
+//@ at call EvaluateString #1: v = result0
+//@ at call EvaluateString #1: e = result1
+//@ at call Dir #1 assert relativeTo: arg0 == ctx.SourceFile()
+//@ at call Dir #1: dir = result
+//@ at call Join #1 assert joined: len(arg0) == 2 && arg0[0] == dir && is(v, string) && arg0[1] == as(v, string)
+//@ at call Join #1: path = result
+//@ at call RenderFile #1 assert file: arg0 == path && e == nil
+//@ at call RenderFile #1: out = result0
+//@ at call RenderFile #1: re = result1
+//@ at call WriteString #1 assert inserts: arg1 == out && re == nil && wrote == 0
+//@ at call WriteString #1: wrote = wrote + 1
+//@ at call WriteString #1: werr = result1
+//@ ensures evalError: e != nil ==> result == e && wrote == 0
+//@ ensures nonString: e == nil && !is(v, string) ==> result != nil && wrote == 0
+//@ ensures includeError: re != nil ==> result == re && wrote == 0
+//@ ensures inserted: e == nil && is(v, string) && re == nil ==> wrote == 1
+//@ ensures writeError: werr != nil ==> result != nil
